@@ -219,4 +219,8 @@ def checkRoundTrip (t : Topology) (j : Str) (parsed : Option Topology) (j2 : Str
   | none => some "json.parse"
   | some t' => if t'.norm ≠ t.norm then some "json.roundtrip" else if j2 ≠ j then some "json.fixpoint" else none
 
+/-- the two serialisers (`ToJSON`, `JSONstring`) are the same function of the topology: asked one after the other on
+the same object they return the same bytes (`same`, observed by the harness) -/
+def checkSerialisers (same : Bool) : Option String := ok same "json.serialisers-differ"
+
 end RawPanelVerif.Spec.Topo
